@@ -40,6 +40,16 @@ const (
 	HmacSha384Hash HashAlg = 6
 )
 
+// Valid reports whether the algorithm is one of the FDO hash or HMAC types.
+// HashFunc and String panic for any other value.
+func (alg HashAlg) Valid() bool {
+	switch alg {
+	case Sha256Hash, Sha384Hash, HmacSha256Hash, HmacSha384Hash:
+		return true
+	}
+	return false
+}
+
 func (alg HashAlg) String() string {
 	switch alg {
 	case Sha256Hash:
